@@ -599,11 +599,11 @@ class Bus(ContainerBase, StoreClientMixin): # not a ContainerOperand
         for label, frame in targets_items:
             idx = index._loc_to_iloc(label)
 
-            if max_persist_active: # update LRU position
-                self._last_accessed[label] = self._last_accessed.pop(label, None)
-
             if frame is FrameDeferred:
                 frame = next(store_reader)
+
+            if max_persist_active: # update LRU position; only after a successful read, so that a label whose read raised is not counted as held
+                self._last_accessed[label] = self._last_accessed.pop(label, None)
 
             if not self._loaded[idx]:
                 # as we are iterating from `targets`, we might be holding on to references of Frames that we already removed in `array`; in this case we do not need to `read`, but we still need to update the new array
